@@ -204,6 +204,45 @@ func (e *Env) Reopen() error {
 	return nil
 }
 
+// RestartServer stops the server application and starts a new one on the same address and the
+// same directories (gRPC mode without a proxy); the client stays as it is and reconnects by itself.
+func (e *Env) RestartServer() error {
+	if e.Opt.Mode != Grpc || e.proxy != nil {
+		return errors.New("RestartServer: gRPC mode without proxy only")
+	}
+	e.stop()
+	select {
+	case <-e.done:
+	case <-time.After(20 * time.Second):
+		return errors.New("grpc server did not stop")
+	}
+	if err := e.app.Stop(); err != nil {
+		return fmt.Errorf("stop: %w", err)
+	}
+	ctx, cancel := context.WithCancel(context.Background())
+	a, err := verif.NewApp(ctx, e.Cfg)
+	if err != nil {
+		cancel()
+		return fmt.Errorf("new app: %w", err)
+	}
+	var lis net.Listener
+	for i := 0; i < 200; i++ {
+		lis, err = net.Listen("tcp", e.Addr)
+		if err == nil {
+			break
+		}
+		time.Sleep(10 * time.Millisecond)
+	}
+	if err != nil {
+		cancel()
+		return fmt.Errorf("listen again on %s: %w", e.Addr, err)
+	}
+	e.app, e.stop, e.C = a, cancel, a.Container()
+	e.done = make(chan error, 1)
+	go func() { e.done <- a.Serve(ctx, lis) }()
+	return nil
+}
+
 // Collect runs one pass of the old-version collector synchronously.
 func (e *Env) Collect() error { return verif.Collect(context.Background(), e.C) }
 
